@@ -197,4 +197,53 @@ def runStore (rnd : Nat → Rat) : Store → List StoreStep → Store × List St
 
 def emptyStore : Store := ⟨[], [], 0, 0⟩
 
+/-! ### one level below `EsClient`: `RallySyncElasticsearch.perform_request` (esrally/client/synchronous.py)
+
+Every metrics-store request goes through it.  On a client object that has not verified the product yet it first
+asks `GET /` (a non-2xx answer or a transport error there ends the call), *then* sends the request; the answer is
+raised as `ApiError` (by status) unless it is 2xx (`200 <= status < 299`), a 404 to a `HEAD` (used as "exists"), or a
+status the caller asked to ignore. -/
+
+/-- the status rule of `perform_request` -/
+def statusRaises (head : Bool) (status : Nat) (ignore : List Nat) : Bool :=
+  !(head && status == 404) && (!(decide (200 ≤ status) && decide (status < 299)) && !ignore.contains status)
+
+inductive Reply
+  | status (s : Nat)
+  | connError
+  | connTimeout
+deriving Repr, DecidableEq
+
+inductive Exchange
+  | info       -- GET / (product check)
+  | target     -- the request itself
+deriving Repr, DecidableEq
+
+inductive CallOutcome
+  | response (s : Nat)        -- returned to the caller as a normal response
+  | raisedStatus (s : Nat)    -- ApiError subclass for the status
+  | raisedConnError
+  | raisedConnTimeout
+deriving Repr, DecidableEq
+
+def raiseReply : Reply → CallOutcome
+  | .status s => .raisedStatus s
+  | .connError => .raisedConnError
+  | .connTimeout => .raisedConnTimeout
+
+/-- the request itself: last exchange of the call -/
+def sendTarget (head : Bool) (ignore : List Nat) : Reply → CallOutcome
+  | .status s => if statusRaises head s ignore then .raisedStatus s else .response s
+  | r => raiseReply r
+
+/-- one `perform_request`: the exchanges in order and how the call ends (`verified`: product check already passed) -/
+def clientCall (verified head : Bool) (ignore : List Nat) (info target : Reply) : List Exchange × CallOutcome :=
+  if verified then ([.target], sendTarget head ignore target)
+  else
+    match info with
+    | .status s =>
+      if decide (200 ≤ s) && decide (s < 299) then ([.info, .target], sendTarget head ignore target)
+      else ([.info], .raisedStatus s)
+    | r => ([.info], raiseReply r)
+
 end Guarded
